@@ -133,6 +133,39 @@ def discharge(ob, alg, live, budget, tier):
             m = None
         if m is not None and m > REFUTE_MARGIN:
             return done('refuted', 'sample-evaluation', witness=dict(se.env), detail='margin %.3g' % m)
+    # 1b. the path's samples have no values for symbols that stand for callee results (fresh rotations / logarithms of the
+    #     L0 contracts): complete them with random admissible values -- any value is allowed by the callee contract, so a
+    #     violation found this way is a counter-model at the contract level (confirmed or not by the native replay/search)
+    if live and goal.op != 'T':
+        names = set(T.free_vars([goal] + list(ob.hyps)))
+        missing = [n for n in names if n not in live[0].env and n != 'pi']
+        if missing and len(missing) <= 64 and all(re.match(r'^(e\d+_[0-3]|l\d+_[0-2]|tw\d+_[0-5]|sol\d+_\d+|hv\d+_.*|quat\d+_[xyzw])$', n) for n in missing):
+            import random as _rnd
+            rng = _rnd.Random(len(ob.name) * 7919 + len(missing))
+            from .explore import truth_level
+            for se0 in live[:3]:
+                for _try in range(4):
+                    env = dict(se0.env)
+                    groups = {}
+                    for n in missing:
+                        env[n] = rng.gauss(0, 1)
+                        m = re.match(r'^(e\d+)_[0-3]$', n) or re.match(r'^(quat\d+)_[xyzw]$', n)
+                        if m:
+                            groups.setdefault(m.group(1), []).append(n)
+                    for gname, members in groups.items():
+                        if len(members) == 4:
+                            nn = sum(env[x] ** 2 for x in members) ** 0.5
+                            for x in members:
+                                env[x] = env[x] / nn
+                    se = SampleEval(env)
+                    try:
+                        if min([2] + [truth_level(h, se) for h in ob.hyps]) >= 1:
+                            m = _margin(goal, se)
+                            if m is not None and m > 1e-4:
+                                return done('refuted', 'z3-model-free abstract sample (random values for callee results)',
+                                            witness=dict(se0.env), detail='margin %.3g' % m)
+                    except (EvalUndefined, OverflowError, ZeroDivisionError, ValueError):
+                        pass
     # 2. ring identity
     ring_detail = None
     if ob.pair is not None and (goal.op == '==' or ob.tol is not None):
